@@ -308,6 +308,11 @@ def c11(ctx, api):
     acc.add('GenSweep: 40 token families (raw / JSON / quoted literals with 1-4-byte characters and escapes, blanks, identifiers, ill-formed '
             'and unterminated literals) at EVERY repetition count 0..%d, i.e. every byte alignment across 512 .. 32768-byte boundaries; '
             'Search and Compile at each length (expected outcome a function of n, SweepLemma)' % (9000 if thorough else 1100), st, summ)
+    sizes = '{510, 520, 600, 1100, 2000, 5000}' if thorough else '{510, 520, 600, 1100}'
+    st, summ = api['run_tlc_to_harness'](ctx, 'bigstr', 'GenBigStr', cfg(constants={'Emit': 'TRUE', 'Prop': '"C11"', 'Sizes': sizes}), timeout=1500,
+                                         harness_args=['-timeout', '60s'])
+    acc.add('GenBigStr: sort / sort_by / max / min / reverse on %s strings with leading characters of 1-4 bytes in pseudo-random order; '
+            'the expected array is a closed form checked against the specification sort for n = 10, 20, 30' % sizes, st, summ)
     tv = api['run_trace_validation'](ctx, 'unicode-traces', 3000 if thorough else 800, ctx['seed'], corpus=False, mode='unicode')
     acc.add_traces('trace validation: 30 string operations on random strings of <= 7 code points over 12 symbols (1-4 bytes, combining mark, '
                    'U+FFFD, U+10000), recorded from the real Search and checked by TLC', tv)
@@ -327,6 +332,11 @@ def c13(ctx, api):
                                          timeout=3000)
     acc.add('GenSort: lengths %s x 4 key patterns x {number, string keys} x %d seeds x 10 expressions'
             % (lengths, 8 if thorough else 1), st, summ)
+    sizes = '{510, 520, 600, 1100, 2000, 5000}' if thorough else '{510, 520, 600, 1100}'
+    st, summ = api['run_tlc_to_harness'](ctx, 'bigstr', 'GenBigStr', cfg(constants={'Emit': 'TRUE', 'Prop': '"C13"', 'Sizes': sizes}), timeout=1500,
+                                         harness_args=['-timeout', '60s'])
+    acc.add('GenBigStr: sort / sort_by / max / min / reverse on %s strings with leading characters of 1-4 bytes in pseudo-random order; '
+            'the expected array is a closed form checked against the specification sort for n = 10, 20, 30' % sizes, st, summ)
     tv = api['run_trace_validation'](ctx, 'sort-traces', 400 if thorough else 96, ctx['seed'], corpus=False, mode='sort',
                                      maxlen=200 if thorough else 100)
     acc.add_traces('trace validation: sort_by / max_by / min_by / sort / group_by on random arrays of 13..200 elements with many ties, '
